@@ -38,3 +38,14 @@ Definition chk_oper (c : Z * Z * list (Z * Z * Z * float * float * Z * Z) * Z * 
   let '(m1, m2, tab, sign, i12, i21, kind, nodes) := c in
   let r := enc_result (bool_oper F64 (mk_arr m1 m2 (map mkx tab)) sign i12 i21) in
   (fst r =? kind) && list_eqb pz_eqb (snd r) nodes.
+
+(* ---- histories: ops 0 area(), 1 inverse(), 2 invert(); observed per call: orientation of the object's vertex array
+   (0 as given, 1 reversed) and of the returned polygon (-1: nothing returned) *)
+Definition dec_op (z : Z) : pop := if z =? 1 then PInverse else if z =? 2 then PInvert else PArea.
+Definition obit (vs l : list Z) : Z := if list_eqb Z.eqb l vs then 0 else if list_eqb Z.eqb l (rev vs) then 1 else 2.
+Definition chk_hist (c : Z * list Z * list (Z * Z)) : bool :=
+  let '(n, ops, obs) := c in
+  let vs := map Z.of_nat (seq 0 (Z.to_nat n)) in
+  list_eqb pz_eqb
+    (map (fun e => (obit vs (fst e), match snd e with Some q => obit vs q | None => -1 end)) (ptrace vs (map dec_op ops)))
+    obs.
